@@ -152,6 +152,13 @@ static void trip_double(double v) {
         mc_viol("c07/value/double/15-digit-text-rounds-beyond-largest-finite", "double %.17g -> [%s] -> %g", v, mc_e(resp, respn), d_d);
         return;
     }
+#ifdef MC_CFG_DTOSTRE
+    if (!(fabs(d_d - v) <= tol) && fabs(d_d - v) <= 8 * ulp_bound(v, 15)) {
+        /* the library's own formatter generates the 15th digit inexactly (up to ~3 units off): known finding of C16 */
+        mc_viol("c07/value/double/builtin-formatter-15th-digit-inexact", "double %.17g -> [%s] -> %.17g (deviation %.3g, half a unit is %.3g)", v, mc_e(resp, respn), d_d, fabs(d_d - v), ulp_bound(v, 15));
+        return;
+    }
+#endif
     if (!(fabs(d_d - v) <= tol)) { mc_viol("c07/value/double", "double %.17g -> [%s] -> %.17g (allowed deviation %.3g)", v, mc_e(resp, respn), d_d, tol); return; }
     n_nontrivial++;
     mc_outcome(mc_hash(resp, respn, 78));
